@@ -598,8 +598,14 @@ def stream_lorentz(run, n):
                         desc, 'll-zero-width', (f2b(fw),))
             continue
         full, trunc = lorentz_oracle(R, wl, fw, mn, mx, dl, bins, cut)
-        lo = min(full, trunc) - S_LOR_TOL * R - 1e-12 * sum(abs(t) for t in base) * dl
-        hi = max(full, trunc) + S_LOR_TOL * R + 1e-12 * sum(abs(t) for t in base) * dl
+        if run.src['lorentz_variant'] == 'cdf':
+            # closed-form bin integrals, clipped at the cut-offs: the truncated normalised profile, to rounding
+            full = trunc
+            ltol = 1e-9
+        else:
+            ltol = S_LOR_TOL
+        lo = min(full, trunc) - ltol * R - 1e-12 * sum(abs(t) for t in base) * dl
+        hi = max(full, trunc) + ltol * R + 1e-12 * sum(abs(t) for t in base) * dl
         ok = lo <= tot <= hi
         sig = ('C02:add_lorentzian_line:GaussianQuadrature-under-resolved-bin' if ratio >= 2.0
                else 'C02:add_lorentzian_line:integral!=R*window-fraction')
@@ -978,7 +984,8 @@ def stark_oracle(run, e, R, extra, res, base, cls, desc):
                 under = under or dl / fv >= 2.0
         added = [a - b for a, b in zip(impl, base)]
         tot = math.fsum(added) * dl
-        tol = (S_LOR_TOL if lw > 0 else 1e-9) * abs(R) + 1e-12 * sum(abs(t) for t in base) * dl + 1e-300
+        ltol = 1e-8 if run.src['lorentz_variant'] == 'cdf' else S_LOR_TOL
+        tol = (ltol if lw > 0 else 1e-9) * abs(R) + 1e-12 * sum(abs(t) for t in base) * dl + 1e-300
         ok = abs(tot - want) <= tol
         d2 = dict(desc, polarisation=pol, lorentz_weight=lw, fwhm_full=fv, bin_width_over_fwhm=dl / fv)
         if not ok and under and abs((tot - want) - lor_err) <= tol:
@@ -1293,7 +1300,49 @@ def replay_case(run_, case, from_corpus=None):
         ok = abs(tot - want) <= S_GAUSS_TOL * d['radiance']
         run_.s_check(ok, 'C02:add_gaussian_line:integral!=R*window-fraction', 'replay: Sigma*delta=%r want %r' % (tot, want), d, 'corpus', (from_corpus or 'replay',))
         return ok, tot, want
+    if d.get('model') in MODEL_KINDS:
+        return replay_model(run_, d)
     return None
+
+
+MODEL_KINDS = {'GaussianLine': 'gauss', 'MultipletLineShape': 'mult', 'ZeemanTriplet': 'zt', 'ParametrisedZeemanTriplet': 'pz',
+               'ZeemanMultiplet': 'zm', 'StarkBroadenedLine': 'stark'}
+
+
+def replay_model(run_, d):
+    """rebuild a line-shape model case from its stored description and apply the S oracles to the real code"""
+    kind = MODEL_KINDS[d['model']]
+    e = dict(d['env'])
+    for k in ('vel', 'dir', 'b'):
+        e[k] = list(e[k])
+    e.setdefault('bclass', 'replay')
+    e.setdefault('tclass', 'replay')
+    extra = {k: v for k, v in d.get('extra', {}).items()}
+    if 'mult' in extra:
+        extra['mult'] = [tuple(t) for t in extra['mult']]
+    if 'abg' in extra:
+        extra['abg'] = tuple(extra['abg'])
+    if 'cab' in extra:
+        extra['cab'] = tuple(extra['cab'])
+    if 'tabs' in extra:
+        extra['tabs'] = {k: [tuple(t) for t in v] for k, v in extra['tabs'].items()}
+        extra['fns'] = {k: [((lambda b, w=w: w), (lambda b, r=r: r)) for w, r in v] for k, v in extra['tabs'].items()}
+    R = d['radiance']
+    run_.W.set_env(e)
+    res = {}
+    base = [0.0] * d['bins']
+    for pol in ('no', 'pi', 'sigma'):
+        m = build_model(run_, kind, e, pol, extra)
+        s = spectrum(d['min'], d['max'], d['bins'])
+        m.add_line(R, run_.P, run_.V(*e['dir']), s)
+        res[pol] = ([float(t) for t in s.samples], s)
+        if kind in ('gauss', 'mult'):
+            break
+    before = len(run_.ctx.failing) + len(run_.ctx.known_hits)
+    model_oracles(run_, kind, e, R, extra, res, base, d.get('window', 'replay'))
+    after = len(run_.ctx.failing) + len(run_.ctx.known_hits)
+    tot = sum(res['no'][0]) * res['no'][1].delta_wavelength
+    return after == before, tot, 'see oracle messages above'
 
 
 def replay(ctx, path):
